@@ -256,6 +256,17 @@ def run(ctx):
                 return True
         if isinstance(e, (ast.Name, ast.Attribute)):
             return st.get(norm(e)) == 'fresh'
+        if isinstance(e, ast.Subscript) and isinstance(e.value, ast.Name):
+            return st.get(e.value.id) == 'fresh-list'           # an element of a list of steps that were each constructed for it
+        if isinstance(e, ast.IfExp):
+            return fresh_expr(e.body, st) and fresh_expr(e.orelse, st)
+        return False
+
+    def fresh_list(e, st):
+        if isinstance(e, ast.ListComp):
+            return fresh_expr(e.elt, st)
+        if isinstance(e, (ast.List, ast.Tuple)):
+            return bool(e.elts) and all(fresh_expr(x, st) for x in e.elts)
         return False
 
     def analyse(fn):
@@ -266,6 +277,8 @@ def run(ctx):
                     if isinstance(t, (ast.Name, ast.Attribute)):
                         if fresh_expr(s_.value, st):
                             st[norm(t)] = 'fresh'
+                        elif fresh_list(s_.value, st):
+                            st[norm(t)] = 'fresh-list'
                         else:
                             st.pop(norm(t), None)
             elif isinstance(s_, (ast.For, ast.AugAssign)):
